@@ -118,6 +118,9 @@ let mk_cfg api sn target ann tgt salt = rl_mk_cfg (nat_of_int api) (nat_of_int s
 let lkcfg = ref (mk_cfg 0 0 N0 None [] [])
 let lkst = ref None
 let lklate : int list ref = ref []   (* harness numbers of queries issued in the race window of a Stop() *)
+(* drv_lookups_limiter.ml (`lksent` lines): Some l once the first announce_peer / put datagram of the case has left;
+   l = the sends the model still expects *)
+let lkexp : (((((n * byte list) * n) * z) * bool) * z) list option ref = ref None
 
 let with_state f : string =
   match !lkst with
@@ -167,7 +170,7 @@ let () =
          key but no seq is ignored (D2 repaired), a delivery is given up only once the announce has been closed
          (D10 repaired: a.closed.Done()) *)
       let c = mk_cfg api sn (n_of_hex target) ann (bytes_of_hex tgt) (bytes_of_hex salt) in
-      lkcfg := c; Hashtbl.reset ipw; lklate := [];
+      lkcfg := c; Hashtbl.reset ipw; lklate := []; lkexp := None;
       lkedmiss := false;
       lkst := Some (rl_init lkedv c);
       "ok"
@@ -187,7 +190,9 @@ let () =
               (* not a step of the model now.  The one legitimate cause: Stop() was called while the run loop
                  was in the middle of starting queries; such a query is cancelled at once and has no effect
                  (in the model it is a TIssue that precedes the Stop).  Anything else is a disagreement. *)
-              if rl_view_stopping s' then (lklate := q :: !lklate; r) else "REJECT query-issued-while-model-cannot"
+              (* ... and once an announce_peer has left the traversal has Stopped: the window is closed *)
+              if (match !lkexp with Some _ -> true | None -> false) && int_of_nat (rl_cfg_api !lkcfg) = 1 then "REJECT query-issued-after-announce-peer-began"
+              else if rl_view_stopping s' then (lklate := q :: !lklate; r) else "REJECT query-issued-while-model-cannot"
             | _ -> r)
          end)
     | _ -> "?");
